@@ -75,7 +75,7 @@ class NMEA2000Message:
                 elif requested_unit == "psi":
                     f.unit_of_measurement = "PSI"
                     f.value = pascal_to_PSI(f.value)
-            if f.physical_quantities == PhysicalQuantities.ANGLE:
+            if f.physical_quantities == PhysicalQuantities.ANGLE and f.unit_of_measurement == "rad":  # a few proprietary fields are already in degrees
                 requested_unit = preferred_units.get(PhysicalQuantities.ANGLE, None)
                 if requested_unit == "deg":
                     f.unit_of_measurement = "Deg"
